@@ -23,9 +23,9 @@ def sched_overlay():
         if not fn.endswith(".go") or fn.endswith("_test.go"):
             continue
         src = open(os.path.join(core.REPO, fn), encoding="utf-8").read()
-        if "sync.Mutex" not in src:
+        if "sync.Mutex" not in src and "sync.RWMutex" not in src:
             continue
-        out = src.replace("sync.Mutex", "VerifMutex")
+        out = src.replace("sync.RWMutex", "VerifRWMutex").replace("sync.Mutex", "VerifMutex")
         if re.search(r"\bsync\.", out) is None:
             out += "\nvar _ sync.Locker = (*VerifMutex)(nil) // keeps the import used under the overlay\n"
         dst = os.path.join(d, fn)
